@@ -281,6 +281,17 @@ package callbacks
 //@   min-sites 2
 //@   assert records-what-the-nested-delete-reported: arg0 == db && tagof(arg1) == nestedErrTag && boxof(arg1) == nestedErrBox [C13,C05]
 
+//@ # ---------- C10: what an upsert refreshes on conflict is admitted by Select/Omit and the field's permissions ----------
+//@ # ON CONFLICT DO UPDATE (UpdateAll) sets the tracked update-time column to now only when the column is in the write
+//@ # set of an update (selected, or unrestricted and not denied: SelectAndOmitColumns(true, true) holds false for a
+//@ # field whose tag denies update), never for a key or a create-time column.
+//@ site upsert-refreshes-only-admitted-tracked-time
+//@   match store Assignment.Value
+//@   in callbacks.ConvertToCreateValues
+//@   min-sites 1
+//@   assert admitted-by-select-omit-and-permission: (has(selectColumns, field.DBName) && selectColumns[field.DBName]) || (!has(selectColumns, field.DBName) && !restricted) [C10]
+//@   assert not-a-key-or-create-time-column: !field.PrimaryKey && field.AutoCreateTime == 0 [C10,C16]
+
 //@ # ---------- C13: association values saved once per operation ----------
 //@ # "Each hook fires exactly once per record": a record reached twice through associations in one Create/Update
 //@ # must be saved (and run its hooks) once. The per-operation visit map remembers what was saved; the first
